@@ -366,6 +366,10 @@ class MessageManager(ClientLike):
         Args:
             module (Module): Module object to remove
         """
+        if self.modules.get(module.conn) is not module:
+            # already removed, e.g. while an error message about it was being delivered to it
+            return
+
         # Drop all subscriptions for this module
         for msg_type in module.subs:
             self.subscriptions[msg_type].discard(module)
